@@ -29,7 +29,7 @@ def main():
         sh('git -C /repo worktree prune')
         sh(f'git -C /repo worktree add --detach {WT} HEAD')
     sh(f'git -C {WT} checkout -q --detach $(git -C /repo rev-parse HEAD); git -C {WT} checkout -- .; git -C {WT} clean -fdq')
-    rj = HOME / 'selftest' / 'benign_results.json'
+    rj = Path(os.environ.get('BENIGN_RESULTS', HOME / 'selftest' / 'benign_results.json'))
     results = json.loads(rj.read_text()) if rj.exists() else {}
     for name in names:
         d = BENIGN / name
@@ -38,7 +38,7 @@ def main():
         if a.returncode:
             results[name] = {'error': 'patch does not apply'}
             continue
-        env = dict(os.environ, VERIF_REPO=str(WT), VERIF_REPLAYS=str(HOME / '.scratch' / 'replays'))
+        env = dict(os.environ, VERIF_REPO=str(WT), VERIF_REPLAYS=str(HOME / '.scratch' / ('replays-' + WT.name)))
         t = sh(f'cd {WT} && PYTHONPATH={WT} /venv/bin/python -m pytest -q -x -p no:cacheprovider tests 2>&1 | tail -1')
         res = {'tests': t.stdout.strip()[-60:], 'checks': {}}
         for pid in PROPS:
@@ -60,7 +60,7 @@ def main():
             continue
         first = next((c['lines'][0] for p, c in r_['checks'].items() if c['rc'] != 0 and c['lines']), '')
         lines.append(f'| {name} | {r_["tests"]} | {", ".join(r_["alarms"]) or "none"} | {first[:160]} |')
-    (HOME / 'selftest' / 'BENIGN.md').write_text('\n'.join(lines) + '\n')
+    Path(os.environ.get('BENIGN_MD', HOME / 'selftest' / 'BENIGN.md')).write_text('\n'.join(lines) + '\n')
 
 
 if __name__ == '__main__':
